@@ -32,6 +32,8 @@ THEOREMS = [
     "C30_nested_start_refines",
     "C30_nested_bound",
     "C30_nested_start_counted",
+    "C30_cancel_keeps_slot",
+    "C30_slot_kept_until_finish",
 ]
 LEAN_TARGETS = ["WfProps.C30"]
 EXPLANATION = (
@@ -45,13 +47,17 @@ EXPLANATION = (
     "helpful action is always enabled while a run waits (N>=1) and the measure 2*(pending up to r)+(woken) bounds the helpful actions that can "
     "happen before r is woken; run ids unique; the FIFO ready-queue layer used by the driver only performs LTS actions; runs started from inside "
     "a step of a run that holds its slot (nested starts, same or other instance) add no reachable state, keep the bound, and with all N slots "
-    "taken such a run queues as a pending waiter. Tie: (gen) the source of "
+    "taken such a run queues as a pending waiter; task.cancel() on a run inside its limit changes nothing and wakes nobody, and until that run's "
+    "own run function has ended it stays inside the limit whatever else happens (so at most N-1 others are). Tie: (gen) the source of "
     "_maybe_acquire_max_concurrent_runs / run_with_concurrency_limit re-extracted into C30_source_shape; (K1) real Workflow instances on the real "
     "BasicRuntime under the virtual-time loop with gate-controlled steps, scheduler-chosen starts (from top-level code and NESTED: the step of "
     "an executing run, or a task it spawned, calls run() of its own or another instance, fire-and-forget or awaited)/finishes/failures/time-outs/hard and soft "
-    "cancels/snipes/instance replacement, gc.collect() after every op: semaphore value, waiter queue, executing runs and outcomes compared with "
+    "cancels/snipes/instance replacement, steps with an asynchronous cancellation clean-up (a cancelled holder is still inside its step, "
+    "and its slot, at the next quiescent points, until the scheduler lets the clean-up end), runs started under the run_id of an aborted run "
+    "(abort + restart + one more run at the same instant), gc.collect() after every op: semaphore value, waiter queue, executing runs and outcomes compared with "
     "the model driver after every op; (K2) asyncio.Semaphore itself stepped one ready handle at a time against the model's micro actions incl. "
-    "the FIFO order of the ready queue. Search: monitors on step entry/exit events and quiescent snapshots (bound, step outliving its run, "
+    "the FIFO order of the ready queue. Search: monitors on step entry/exit events (step code incl. its cancellation clean-up) and quiescent snapshots (bound, "
+    "classified by whether one of the runs is a cancelled run still in its step or shares its run_id with an aborted run; step outliving its run, "
     "conservation, waiting with a free permit, FIFO entry order, every started uncancelled run executes, permits restored, solo-vs-side-by-side "
     "independence)."
 )
@@ -63,7 +69,13 @@ ASSUMPTIONS = [
     "loop eventually steps every task whose future is done (asyncio's FIFO ready queue)",
     "a run counts as executing from entering to leaving `async with sem`; that its step bodies do not outlive this window is not part of the "
     "model: it is checked on the real runtime by the monitor C30/step_outlives_run (step bodies are assumed to honour cancellation within "
-    "cleanup_tasks' 0.5 s grace)",
+    "cleanup_tasks' 0.5 s grace). Steps with an asynchronous cancellation clean-up are generated, but the scheduler always lets the clean-up end "
+    "before it advances the clock past that grace period, and it never calls handler.cancel() a second time on a run whose step is in its "
+    "clean-up: both end the run while its step still executes (the wait for the cancelled workers is bounded / is itself cancellable) -- "
+    "signatures C30/step_outlives_run[cleanup_longer_than_grace_period] and [hard_cancelled_again_during_cleanup] keep these two apart from "
+    "any other way a step can outlive its run",
+    "run ids of the model are the order of the run() calls; the run_id STRINGS of the implementation are not modelled (a run started under the "
+    "run_id of an aborted run is just the next run): that re-use changes nothing is checked by K1/S on the real runtime only",
     "instance identity is id(workflow): uniqueness among live instances and 'a live semaphore keeps its workflow alive' (both are locals of the "
     "same generator frame) are by reading; exercised by the drop/re-create ops with gc.collect()",
     "limits are naturals (a negative num_concurrent_runs makes asyncio.Semaphore raise inside the task; not modelled); workflow._num_concurrent_runs "
@@ -109,8 +121,21 @@ class Chooser:
             ex = [r for r in live.executing[i] if r in alive]
             waiting = [r for r in alive if r not in ex]
             if live.nruns[i] < 9:
-                opts += [["start", i]] * (4 if len(alive) < 3 else 2)
+                opts += [self._start_op(i) for _ in range(4 if len(alive) < 3 else 2)]
+                # the run_id of an aborted run is free again (abort() forgets it at once): start a run under it,
+                # as the server's idle-release runtime does when it reloads a run it released
+                for r0 in free_ids(live, i):
+                    opts += [self._start_op(i, r0)] * 2
             for r in ex:
+                if (i, r) in live.cleaning:
+                    # its cancelled step is inside its asynchronous clean-up: the scheduler decides when that ends.
+                    # (Not generated: a second handler.cancel() now, and letting the 0.5 s worker-cancel grace
+                    # period run out first -- see ASSUMPTIONS.)
+                    if live.cleanup.get((i, r)) == "gate":
+                        opts += [["clean", i, r]] * 3
+                    if (i, r) not in live.soft:
+                        opts.append(["soft", i, r])
+                    continue
                 if (i, r) in live.awaiting:
                     # its step is blocked on a nested run: it can only be cancelled from outside
                     opts.append(["hard", i, r])
@@ -135,10 +160,42 @@ class Chooser:
                 opts.append(["hard", i, r])
                 if (i, r) not in live.soft:
                     opts.append(["soft", i, r])
-            done = [r for r in range(1, live.nruns[i] + 1) if r not in alive]
+            # (not a run whose run_id a later run was started under: abort() forgets the id, i.e. the later run's entry)
+            done = [r for r in range(1, live.nruns[i] + 1) if r not in alive and not superseded(live, i, r)]
             if done and rng.random() < 0.15:
                 opts.append(["hard", i, rng.choice(done)])
         return opts
+
+    def _start_op(self, i: int, rid_of: Any = None) -> list:
+        """a top-level start; some runs get a step with an asynchronous cancellation clean-up"""
+        rng = self.rng
+        opts: dict = {}
+        x = rng.random()
+        if x < 0.25:
+            opts["cleanup"] = "gate"
+        elif x < 0.4:
+            opts["cleanup"] = rng.choice([1, 2, 5, 20, 60])
+        if rid_of is not None:
+            opts["rid_of"] = rid_of
+        return ["start", i, opts] if opts else ["start", i]
+
+    def _reload(self, live: Any) -> Any:
+        """abort a run that holds a slot and start a run under the same run_id at the same instant (plus, often,
+        one more run of the instance)"""
+        rng = self.rng
+        cands = []
+        for i, c in live.cfg.items():
+            if i in live.dropped or live.nruns[i] >= 8:
+                continue
+            alive = live.live_runs(i)
+            cands += [(i, r) for r in live.executing[i] if r in alive and (i, r) not in live.cleaning and (i, r) not in live.aborted]
+        if not cands:
+            return None
+        i, r = rng.choice(cands)
+        subs = [["hard", i, r], self._start_op(i, r)]
+        if rng.random() < 0.7:
+            subs.append(self._start_op(i))
+        return ["multi", subs]
 
     def __call__(self, live: Any, n: int) -> Any:
         rng = self.rng
@@ -148,7 +205,9 @@ class Chooser:
             return self._drain(live)
         opts = self._simple_options(live)
         special: list = []
-        if not self.indep and any(c["timeout"] is not None and live.executing[i] for i, c in live.cfg.items() if i not in live.dropped):
+        if any(c["lim"] is not None and live.executing[i] for i, c in live.cfg.items() if i not in live.dropped):
+            special += [["reload"]] * 2
+        if not live.cleaning and not self.indep and any(c["timeout"] is not None and live.executing[i] for i, c in live.cfg.items() if i not in live.dropped):
             special += [["advance"]] * 3
         for i, c in live.cfg.items():
             if i not in live.dropped and not live.live_runs(i) and live.nruns[i] >= 1 and not live.executing[i]:
@@ -158,6 +217,8 @@ class Chooser:
         pick = rng.choice(opts + special) if (opts or special) else None
         if pick is None:
             return None
+        if pick[0] == "reload":
+            return self._reload(live) or (rng.choice(opts) if opts else None)
         if pick[0] == "drop":
             i = pick[1]
             c = live.cfg[i]
@@ -187,6 +248,8 @@ class Chooser:
                 elif o[0] != "start" and has_nested:
                     continue
                 key = (o[1], o[2]) if o[0] != "start" else None
+                if o[0] == "start" and len(o) > 2 and o[2].get("rid_of") is not None:
+                    key = (o[1], o[2]["rid_of"])  # one run per freed run_id, and no further abort of its former owner
                 if key is not None and key in used:
                     continue
                 if key is not None:
@@ -211,14 +274,29 @@ class Chooser:
         self.drain_left -= 1
         if self.drain_left <= 0:
             return None
+        for (i, r) in live.cleaning:
+            if i not in live.dropped and live.cleanup.get((i, r)) == "gate" and not live.cgates[(i, r)].is_set():
+                return ["clean", i, r]
         for i in live.cfg:
             if i in live.dropped:
                 continue
             alive = live.live_runs(i)
-            ex = [r for r in live.executing[i] if r in alive and (i, r) not in live.awaiting]
+            ex = [r for r in live.executing[i] if r in alive and (i, r) not in live.awaiting and (i, r) not in live.cleaning]
             if ex:
                 return ["open", i, ex[0], "ok"]
         return None
+
+
+def superseded(live: Any, i: int, r: int) -> bool:
+    rid = live.run_ids.get((i, r))
+    return rid is not None and live.id_owner.get(rid) != (i, r)
+
+
+def free_ids(live: Any, i: int) -> list:
+    """runs of instance i whose run_id string is free again: handler.cancel() was called on them (abort() drops the
+    id from the runtime's table at once) and no later run was started under it"""
+    return [r0 for (ii, r0) in live.aborted if ii == i and i not in live.dropped
+            and live.id_owner.get(live.run_ids.get((ii, r0))) == (ii, r0)]
 
 
 def await_safe(live: Any, parent: tuple, j: int) -> bool:
@@ -314,39 +392,87 @@ def monitor(res: dict, drained: bool) -> list[tuple[str, str, int]]:
         txt = "; ".join(f"run {r} was started from inside the step of run {nested[(i, r)][0]}.{nested[(i, r)][1]} ({nested[(i, r)][2]})" for r in ns)
         return ("[nested_start_same_instance]" if same else "[nested_start_other_instance]"), " -- " + txt
 
+    aborted = {tuple(int(x) for x in k.split(".")): v for k, v in res.get("aborted", {}).items()}
+    reused = {tuple(int(x) for x in k.split(".")): v for k, v in res.get("reused", {}).items()}
+    id_shared = set(reused) | {(k[0], v) for k, v in reused.items()}
+
+    def facts(i: int, rs: list, cleaning: set) -> tuple[str, str]:
+        """classifying facts for the bound: which of the runs that execute step code at once is a cancelled run whose
+        step has not finished its (asynchronous) cancellation clean-up, or shares its run_id with an aborted run"""
+        cl = [q for q in rs if (i, q) in cleaning]
+        if cl:
+            ab = [q for q in cl if (i, q) in aborted]
+            txt = "; ".join(f"run {q} was {'hard-cancelled (handler.cancel())' if q in ab else 'cancelled'} and its step is still executing its "
+                            f"cancellation clean-up: it must keep its slot until that step has returned" for q in cl)
+            return ("[aborted_run_still_in_its_step]" if ab else "[cancelled_run_still_in_its_step]"), " -- " + txt
+        sh = [q for q in rs if (i, q) in id_shared]
+        if sh:
+            txt = "; ".join(f"run {q} was started under the run_id of run {reused[(i, q)]}, which had been aborted (handler.cancel())"
+                            for q in sh if (i, q) in reused)
+            return "[run_id_reused_after_abort]", " -- " + txt
+        return origin(i, rs)
+
     inside: dict[int, list] = {}
     taskdone: set = set()
+    cleaning_now: set = set()
+    cleanup_at: dict[tuple, float] = {}
+    done_at: dict[tuple, float] = {}
     last_enter: dict[int, int] = {}
+
+    def hard_cancels(i: int, q: int, upto: int) -> int:
+        """handler.cancel() calls on run q of instance i among the ops up to snapshot `upto`"""
+        n = 0
+        for sn in res["snaps"][: upto + 1]:
+            for x in (sn["op"][1] if sn["op"][0] == "multi" else [sn["op"]]):
+                if x[0] == "hard" and x[1] == i and x[2] == q:
+                    n += 1
+        return n
+
+    def why_outlives(i: int, zs: list, cleaning: set, upto: int) -> str:
+        """classifying fact for a step that outlives its run"""
+        if any((i, q) in cleaning and hard_cancels(i, q, upto) >= 2 for q in zs):
+            return "[hard_cancelled_again_during_cleanup]"
+        if any((i, q) in cleaning and done_at.get((i, q), 0.0) - cleanup_at.get((i, q), 0.0) >= 0.5 for q in zs):
+            return "[cleanup_longer_than_grace_period]"
+        return ""
+
     for n, e in enumerate(res["events"]):
         kind, i, r = e[0], e[1], e[2]
         lim = cfg[i]["lim"]
         if kind == "taskdone":
             taskdone.add((i, r))
+            done_at[(i, r)] = e[3]
+        elif kind == "cleanup":
+            cleaning_now.add((i, r))
+            cleanup_at[(i, r)] = e[3]
         elif kind == "enter":
             cur = inside.setdefault(i, [])
             zombies = [q for q in cur if (i, q) in taskdone]
             if zombies:
-                add("C30/step_outlives_run",
+                add("C30/step_outlives_run" + why_outlives(i, zombies, cleaning_now, snap_of(n)),
                     f"instance {i} (limit {lim}): run {r} enters its step while the step of run(s) {zombies} is still executing although their "
                     f"run task has already ended (outcomes {[res['outcome'].get(f'{i}.{q}') for q in zombies]})", snap_of(n))
             cur.append(r)
             if lim is not None and len([q for q in cur if (i, q) not in taskdone]) > lim:
-                tag, txt = origin(i, cur)
-                add("C30/bound_exceeded" + tag, f"instance {i}: {len(cur)} runs {cur} execute steps at once, limit {lim}{txt}", snap_of(n))
+                tag, txt = facts(i, [q for q in cur if (i, q) not in taskdone], cleaning_now)
+                add("C30/bound_exceeded" + tag, f"instance {i}: {len(cur)} runs {cur} execute step code at once, limit {lim}{txt}", snap_of(n))
             if i in last_enter and r < last_enter[i]:
                 add("C30/fifo_violated", f"instance {i}: run {r} (started earlier) enters its step after run {last_enter[i]}", snap_of(n))
             last_enter[i] = max(last_enter.get(i, 0), r)
         elif kind == "exit":
+            cleaning_now.discard((i, r))
             if r in inside.get(i, []):
                 inside[i].remove(r)
     # --- quiescent snapshots
     for k, s in enumerate(res["snaps"]):
+        snap_cleaning = {tuple(x) for x in s.get("cleaning", [])}
         for i_s, o in s["obs"].items():
             i = int(i_s)
             lim = o["lim"]
             ex_live = [r for r in o["exec"] if r not in o["zombies"]]
             if o["zombies"]:
-                add("C30/step_outlives_run", f"instance {i} (limit {lim}): steps of runs {o['zombies']} still executing at a quiescent point "
+                zt = why_outlives(i, o["zombies"], snap_cleaning, k)
+                add("C30/step_outlives_run" + zt, f"instance {i} (limit {lim}): steps of runs {o['zombies']} still executing at a quiescent point "
                     f"although their run task has ended", k)
             if lim is None:
                 if o["waiters"] or o["sem"] is not None or sorted(o["live"]) != sorted(ex_live):
@@ -360,8 +486,8 @@ def monitor(res: dict, drained: bool) -> list[tuple[str, str, int]]:
                 if o["sem"] + len(ex_live) != lim:
                     add("C30/conservation", f"instance {i}: semaphore value {o['sem']} + {len(ex_live)} executing runs != limit {lim}", k)
             if len(ex_live) > lim:
-                tag, txt = origin(i, ex_live)
-                add("C30/bound_exceeded" + tag, f"instance {i}: runs {ex_live} execute steps at a quiescent point, limit {lim}{txt}", k)
+                tag, txt = facts(i, ex_live, snap_cleaning)
+                add("C30/bound_exceeded" + tag, f"instance {i}: runs {ex_live} execute step code at a quiescent point, limit {lim}{txt}", k)
             waiting = [r for r in o["live"] if r not in ex_live]
             if waiting and len(ex_live) < lim:
                 add("C30/waits_with_free_permit", f"instance {i}: runs {waiting} wait although only {len(ex_live)} of {lim} permits are in use", k)
@@ -501,7 +627,9 @@ def _run(env: Env) -> Outcome:
     out.rule = ("K1: 1-3 workflow instances (limits 1-4, None, rarely 0; shared or distinct class; optional 10 s timeout; own or default runtime) "
                 "driven by online-chosen ops start/NESTED start (a step of a running run calls run() of its own or another instance: fire-and-forget, "
                 "from a task it spawned, or awaited where that cannot deadlock by design)/open ok|fail/hard cancel/soft cancel/snipe/advance/"
-                "drop+re-create/multi, then a drain phase; "
+                "drop+re-create/multi; some runs have a step with an ASYNCHRONOUS cancellation clean-up (k loop iterations, or until the scheduler's "
+                "`clean` op) so that a cancelled holder is still inside its step at the next quiescent point; runs started under the run_id of an "
+                "aborted run (`rid_of`; also abort+restart+one more run at the same instant = what the idle-release runtime does); then a drain phase; "
                 "K2: asyncio.Semaphore(0..4) with random start/tick/go/cancel; non-trivial = some run had to wait; distinct by concrete op list")
     rng = random.Random(env.rng.randrange(1 << 30))
     cases: list[tuple[str, dict, Any]] = []  # (kind, scenario, chooser-args)
@@ -533,6 +661,18 @@ def _run(env: Env) -> Outcome:
                     out.count(f"nested:{x[4]}:{'same' if x[1] == x[3] else 'other'}_instance")
             if s.get("awaiting"):
                 out.count("snapshot:some_step_awaits_nested_run")
+            if s.get("cleaning"):
+                out.count("snapshot:cancelled_step_still_in_cleanup")
+                if any(o["waiters"] for o in s["obs"].values()):
+                    out.count("snapshot:cancelled_step_still_in_cleanup_while_runs_wait")
+            for x in (s["op"][1] if s["op"][0] == "multi" else [s["op"]]):
+                if x[0] == "start" and len(x) > 2:
+                    if x[2].get("cleanup"):
+                        out.count("start:cleanup_" + ("gate" if x[2]["cleanup"] == "gate" else "iterations"))
+                    if x[2].get("rid_of") is not None:
+                        out.count("start:under_run_id_of_aborted_run")
+                        if s["op"][0] == "multi" and ["hard", x[1], x[2]["rid_of"]] in s["op"][1]:
+                            out.count("start:abort_and_restart_same_instant")
         for key, (pi, _pr, _how) in res.get("nested", {}).items():
             j, c = (int(x) for x in key.split("."))
             lim = res["cfg"][j]["lim"] if j in res["cfg"] else None
